@@ -580,6 +580,30 @@ def c_roundtrip_oracle(tj, cases, answers):
             if e is None or e.split(" ")[:2] != [str(page), str(b)]:
                 bad.append(dict(input="T %d %d" % (lid, page), byte=b, decodes_to=x, encode_input="t %d %d %s" % (lid, page, n), c=e,
                                 reason="tag token decodes to a name that is encoded, in that page, with another token"))
+    # the same for attribute-start tokens: the (name, value prefix) a token decodes to is encoded with that token again
+    # (or with a true duplicate: another token that decodes to the very same pair, nothing of the value left over)
+    enc_a = {}
+    for (line, kind), a in zip(cases, answers):
+        f = line.split(" ")
+        if f[0] == "a" and len(f) == 4:
+            enc_a[(int(f[1]), f[2], f[3])] = a
+    for (lid, page), fields in dec_a.items():
+        for b in range(5, 128):
+            x = fields[b]
+            if x in ("?", "notable") or x.startswith("err") or "=" not in x:
+                continue
+            n, v = x.split("=", 1)
+            e = enc_a.get((lid, n, v))
+            if e is None:
+                continue                      # the pair was not among the cases asked
+            ef = e.split(" ")
+            if len(ef) == 5 and [ef[0], ef[1]] == [str(page), str(b)] and ef[4] == "~":
+                continue
+            back = dec_a.get((lid, int(ef[0])), [None] * 256)[int(ef[1])] if len(ef) == 5 else None
+            if len(ef) == 5 and back == x and ef[4] == "~":
+                continue                      # a duplicate row: same name and value prefix under two tokens
+            bad.append(dict(input="A %d %d" % (lid, page), byte=b, decodes_to=x, encode_input="a %d %s %s" % (lid, n, v), c=e,
+                            reason="attribute token decodes to a name/value that is encoded with another token"))
     # namespaces: every row (namespace, page) of a namespace table is found in both directions by the C's own look-ups
     nmap, pmap = {}, {}
     for (line, kind), a in zip(cases, answers):
